@@ -15,7 +15,7 @@ ASSUMPTIONS = [
 ]
 BOUNDS = {
     "quick": "64 tries (<=3-subsets of the 7-key pool, hashed / embedded / mixed); symbolic nibble path of length <= 8 (longest key 6 nibbles + 2); traverse_from: every split position of a symbolic path of length <= 6 on every 5th trie",
-    "thorough": "379 tries (<=4-subsets x 4 value patterns), canonical and history-built; path length <= 8; traverse_from: paths <= 7 on every 3rd trie",
+    "thorough": "379 tries (<=4-subsets x 4 value patterns), canonical and history-built; path length <= 8; traverse_from: paths <= 7 on every 6th trie",
 }
 OUTSIDE = "paths longer than 8 nibbles, tries with more than 4 keys, keys longer than 3 bytes"
 NONTRIVIAL_RULE = "traverse: the path ends inside a leaf/extension; traverse_from: both prefix and segment non-empty"
@@ -29,7 +29,7 @@ def jobs(tier):
     for mi in range(n):
         for build in (("canonical", "history") if tier != "quick" else (("history",) if mi % 2 else ("canonical",))):
             out.append({"module": "vf.props.hexquery", "fn": "h_traverse", "cfg": dict(qbase, mi=mi, build=build), "pct": 1500, "ppt": 40})
-        if mi % (5 if tier == "quick" else 3) == (3 if tier == "quick" else 1):
+        if mi % (5 if tier == "quick" else 6) == (3 if tier == "quick" else 1):
             out.append({"module": "vf.props.hexquery", "fn": "h_traverse_from", "cfg": dict(qbase, mi=mi, maxnib=6 if tier == "quick" else 7), "pct": 3000, "ppt": 40})
     out.append({"module": "vf.props.hexquery", "fn": "r_traverse", "cfg": dict(qbase, mi=n - 1), "pct": 300, "ppt": 40, "kind": "reach"})
     return out
